@@ -25,3 +25,8 @@ def run(chk, args):
         {"family": "float_sa", "ns": "3,4,5", "count": 10 if q else 80, "length": 12},
         {"family": "float_sam", "ns": "3,4", "count": 8 if q else 60, "length": 12, "reps": "1,10"},
     ])
+    from common_bounds import replay_bounds_behaviours
+    replay_bounds_behaviours(chk, "ANY3", {"N": 3, "cls": "ANY", "sing": "m1to1", "slacks": "0to3", "computers": {"sa", "sac", "sam"}, "reps": {0, 1, 2}, "maxchg": 4},
+                             60 if q else 500, 24)
+    replay_bounds_behaviours(chk, "ANY4", {"N": 4, "cls": "ANY", "sing": "m1to1", "slacks": "0to3", "computers": {"sa", "sac", "sam"}, "reps": {0, 2}, "maxchg": 4},
+                             30 if q else 300, 30)
